@@ -310,7 +310,18 @@ class Adapter:
         return self._gen(w, rng)
 
     def kwargs(self, w, op):
-        return {k: w.val(v) for k, v in op.get("args", {}).items()}
+        kw = {k: w.val(v) for k, v in op.get("args", {}).items()}
+        if op.get("respell"):
+            # the same inputs spelled another way: a dict with its items inserted in the opposite
+            # order (an equal dict), plain numbers as numpy scalars of the same value
+            for k, v in list(kw.items()):
+                if type(v) is dict:
+                    kw[k] = {kk: v[kk] for kk in reversed(list(v))}
+                elif type(v) is int:
+                    kw[k] = np.int64(v)
+                elif type(v) is float:
+                    kw[k] = np.float64(v)
+        return kw
 
     def run(self, w, op):
         if self._call is not None:
